@@ -161,18 +161,30 @@ pub fn oracle(c: &Corpus, _seed: u64, tier: &str) -> Vec<Report> {
         // bracket groups with a top-level comma: before the closer
         // (saw a top-level comma, saw anything but numbers/commas/whitespace): groups made of numbers
         // only are fixed-arity tuples (`DECIMAL(10, 2)`, row-pattern `{2,3}`), not lists
-        let mut stack: Vec<(bool, bool)> = vec![];
+        let mut stack: Vec<(bool, bool, bool)> = vec![];
         for (ri, t) in toks.iter().enumerate() {
             match &t.token {
-                Token::LParen | Token::LBracket | Token::LBrace => { if let Some(x) = stack.last_mut() { x.1 = true; } stack.push((false, false)) }
+                Token::LParen | Token::LBracket | Token::LBrace => { if let Some(x) = stack.last_mut() { x.1 = true; } stack.push((false, false, false)) }
                 Token::Comma => { if let Some(x) = stack.last_mut() { x.0 = true; } }
                 Token::RParen | Token::RBracket | Token::RBrace => {
                     match stack.pop() {
-                        Some((true, true)) => { cands.insert((ri, "bracket")); }
-                        Some((true, false)) => {
+                        // a plain list: top-level commas and no keyword at the top level of the group (clause
+                        // keywords mean the commas belong to inner clauses or to a special form)
+                        Some((true, true, false)) => {
+                            let open = { let mut dpt = 0i32; let mut o = 0usize; for (qi, q) in toks[..ri].iter().enumerate().rev() { match q.token { Token::RParen | Token::RBracket | Token::RBrace => dpt += 1, Token::LParen | Token::LBracket | Token::LBrace => { if dpt == 0 { o = qi; break; } dpt -= 1; } _ => {} } } o };
+                            let prev = toks[..open].iter().rev().find(|x| !is_ws(&x.token)).and_then(|x| match &x.token { Token::Word(w) => Some((w.value.clone(), w.keyword)), _ => None });
+                            // fixed-arity special forms and type modifier tuples are not lists (label lists of ENUM/SET are)
+                            let special = matches!(prev.as_ref().map(|p| p.1), Some(Keyword::SUBSTRING | Keyword::CEIL | Keyword::FLOOR | Keyword::EXTRACT | Keyword::POSITION | Keyword::OVERLAY | Keyword::TRIM | Keyword::CONVERT | Keyword::CAST | Keyword::TRY_CAST | Keyword::SAFE_CAST | Keyword::SECOND | Keyword::IDENTITY | Keyword::AUTOINCREMENT));
+                            let all_strings = toks[open + 1..ri].iter().all(|x| matches!(x.token, Token::SingleQuotedString(_) | Token::Comma | Token::Whitespace(_)));
+                            let is_type = !all_strings && prev.as_ref().map(|(w, _)| matches!(guard(|| mk_parser(d, Opts::DEFAULT).try_with_sql(&format!("{w}(1)")).and_then(|mut p| { let t = p.parse_data_type()?; if p.peek_token().token != Token::EOF { return Err(sqlparser::parser::ParserError::ParserError("x".into())); } Ok(t) })), G::Val(Ok(t)) if !matches!(t, sqlparser::ast::DataType::Custom(..)))).unwrap_or(false);
+                            if !special && !is_type { cands.insert((ri, "bracket")); }
+                        }
+                        Some((true, false, _)) => {
                             // numbers only: a list unless it is `{n,m}` or the modifier tuple of a data type
                             let open = toks[..ri].iter().rposition(|x| matches!(x.token, Token::LParen | Token::LBracket | Token::LBrace)).unwrap_or(0);
                             let is_brace = matches!(toks[open].token, Token::LBrace);
+                            let prev_kw = toks[..open].iter().rev().find(|x| !is_ws(&x.token)).and_then(|x| match &x.token { Token::Word(w) => Some(w.keyword), _ => None });
+                            if matches!(prev_kw, Some(Keyword::SUBSTRING | Keyword::CEIL | Keyword::FLOOR | Keyword::EXTRACT | Keyword::POSITION | Keyword::OVERLAY | Keyword::TRIM | Keyword::CONVERT | Keyword::CAST | Keyword::TRY_CAST | Keyword::SAFE_CAST | Keyword::SECOND | Keyword::IDENTITY | Keyword::AUTOINCREMENT)) { continue; }
                             let prev_word = toks[..open].iter().rev().find(|x| !is_ws(&x.token)).and_then(|x| match &x.token { Token::Word(w) => Some(w.value.clone()), _ => None });
                             let is_type = prev_word.map(|w| matches!(guard(|| mk_parser(d, Opts::DEFAULT).try_with_sql(&format!("{w}(1)")).and_then(|mut p| { let t = p.parse_data_type()?; if p.peek_token().token != Token::EOF { return Err(sqlparser::parser::ParserError::ParserError("x".into())); } Ok(t) })), G::Val(Ok(t)) if !matches!(t, sqlparser::ast::DataType::Custom(..)))).unwrap_or(false);
                             if !is_brace && !is_type { cands.insert((ri, "bracket")); }
@@ -181,6 +193,7 @@ pub fn oracle(c: &Corpus, _seed: u64, tier: &str) -> Vec<Report> {
                     }
                 }
                 Token::Number(..) | Token::Whitespace(_) => {}
+                Token::Word(w) if w.keyword != Keyword::NoKeyword && w.quote_style.is_none() => { if let Some(x) = stack.last_mut() { x.1 = true; x.2 = true; } }
                 _ => { if let Some(x) = stack.last_mut() { x.1 = true; } }
             }
         }
